@@ -115,14 +115,13 @@ theorem adm2 (curr dest : Pt) (hne : ¬ (dest.x - curr.x = 0 ∧ dest.y - curr.y
     | (exfalso; exact hne' hx' hy')
 
 /-- three legs: first ≥ 0, inner > 0, last ≥ 0 -/
-theorem adm3 (curr dest : Pt) (hne : ¬ (dest.x - curr.x = 0 ∧ dest.y - curr.y = 0))
+theorem adm3 (curr dest : Pt) (_hne : ¬ (dest.x - curr.x = 0 ∧ dest.y - curr.y = 0))
     (d1 d2 d3 : Dir) (l1 l2 l3 : Rat) (p12 : Perp d1 d2) (p23 : Perp d2 d3)
     (h1 : 0 ≤ l1) (h2 : 0 < l2) (h3 : 0 ≤ l3)
     (hx : l1 * d1.ux + (l2 * d2.ux + l3 * d3.ux) = dest.x - curr.x)
     (hy : l1 * d1.uy + (l2 * d2.uy + l3 * d3.uy) = dest.y - curr.y) :
     leOpt (bends curr d1.mask dest d3.mask) 2 = true := by
   rw [bends_tbl]
-  have hne' : dest.x - curr.x = 0 → dest.y - curr.y = 0 → False := fun a b => hne ⟨a, b⟩
   cases d1 <;> rcases p12 with rfl | rfl <;> rcases p23 with rfl | rfl <;>
   simp only [Dir.left, Dir.right, Dir.ux, Dir.uy] at hx hy <;>
   rcases dimDirection_cases (dest.x - curr.x) with ⟨hx', ex⟩ | ⟨hx', ex⟩ | ⟨hx', ex⟩ <;>
@@ -131,7 +130,6 @@ theorem adm3 (curr dest : Pt) (hne : ¬ (dest.x - curr.x = 0 ∧ dest.y - curr.y
   first
     | decide
     | (exfalso; linarith)
-    | (exfalso; exact hne' hx' hy')
 
 /-- four legs: first ≥ 0, two inner > 0, last ≥ 0 -/
 theorem adm4 (curr dest : Pt) (_hne : ¬ (dest.x - curr.x = 0 ∧ dest.y - curr.y = 0))
